@@ -119,12 +119,73 @@ def run_block(ctx, cases_override=None):
         cases = [c for c in cases if c.cid in ids]
         if not cases: return []
     try:
-        vcheck.coq_build(ctx["log"], None, MODEL_BLOCK)
-        model_exe = vcheck.build_model(ctx["log"], MODEL_BLOCK)
+        model_exe = block_model(ctx)
     except Exception as e:
         return [dict(kind="broken-model-build", case=None, has_input=False, impl=None, model=None, op="amgbm", size=0,
                      theorem="Extract_amgb.v / OCaml driver of the amgb group does not build: " + str(e)[-1500:])]
     return ab.run_cases(ctx, cases, model_exe)
+
+C23 = F(2.0 / 3)          # static_cast<scalar_type>(2.0/3) of smoothed_aggregation.hpp, scalar_type = vq::Q
+NEPS = 64                 # per-level eps_strong^2 values handed to the policy (more than any hierarchy has levels)
+
+def full_policy_tokens(c):
+    """the coarsening policy of Coarsen.coarsen_step for an amg_common.Case (block_size 1, no null space);
+    float parameters are converted with the C++ expressions of the code"""
+    cp = c.cprm
+    eps = F(cp["eps_strong"])                       # already a float value
+    def eps2_list():
+        out = []; e = eps
+        for _ in range(NEPS):
+            out.append(gen.f32_mul(e, e)); e = gen.f32(e / 2)     # prm.aggr.eps_strong *= 0.5 (float)
+        return "%d %s" % (NEPS, " ".join(fmt_q(x) for x in out))
+    if c.coarsening == "aggregation":
+        return "%s 1 %s" % (fmt_q(gen.f32_mul(eps, eps)), c.scale())
+    if c.coarsening == "smoothed_aggregation":
+        relax = F(1) if cp["relax"] == "-" else ac.float32(F(cp["relax"]))
+        return "%s 1 %s %s" % (eps2_list(), fmt_q(relax), fmt_q(C23))
+    if c.coarsening == "smoothed_aggr_emin":
+        return "%s 1" % eps2_list()
+    if c.coarsening == "ruge_stuben":
+        et = ac.float32(F(1, 5)) if cp["eps_trunc"] == "-" else ac.float32(F(cp["eps_trunc"]))
+        dt = 1 if cp["do_trunc"] in ("-", "1") else 0
+        return "%s %s %d" % (fmt_q(eps), fmt_q(et), dt)
+    raise ValueError(c.coarsening)
+
+def run_full(ctx, cases, impl, model_exe):
+    """hierarchies built ENTIRELY inside the model (coq/AmgFull.v amg_init_full: transfer operators from
+    Coarsen.coarsen_step, Galerkin products, level rules, rebuild) against the implementation's dumps:
+    nothing of the implementation's output is an input of the model"""
+    fails = []; lines = []; want = {}
+    for c in cases:
+        o = impl.get(c.cid)
+        if o is None or o.startswith(("CRASH", "EXC", "UNSUPPORTED")): continue
+        segs = o.split(" ; ")
+        if len(segs) != len(c.script): continue
+        sc = []; w = []
+        for i, cmd in enumerate(c.script):
+            if cmd[0] == "dump": sc.append("dump"); w.append(segs[i])
+            elif cmd[0] == "rebuild": sc.append("rebuild " + vcheck.fmt_crs(c.n, c.n, cmd[1])); w.append(segs[i])
+        cf = c.cfg
+        lines.append(" ".join([c.cid, "amgfull", c.coarsening, str(cf["coarse_enough"]), str(cf["direct_coarse"]), str(cf["max_levels"]),
+                               full_policy_tokens(c), vcheck.fmt_crs(c.n, c.n, c.rows), str(len(sc)), " ".join(sc)]))
+        want[c.cid] = w
+    res = ctx["run_driver"](model_exe, lines, timeout=1500)
+    for c in cases:
+        if c.cid not in want: continue
+        ctx["stats"]["oracle_checks"] += 1
+        ctx["stats"].setdefault("full_model_hierarchies", 0); ctx["stats"]["full_model_hierarchies"] += 1
+        got = (res.get(c.cid) or "").split(" ; ")
+        if got != want[c.cid]:
+            ctx["stats"]["mismatches"] += 1
+            k = next((i for i in range(max(len(got), len(want[c.cid]))) if i >= len(got) or i >= len(want[c.cid]) or got[i] != want[c.cid][i]), 0)
+            fails.append(dict(kind="counterexample", case=c.impl_line(), impl=(want[c.cid][k] if k < len(want[c.cid]) else None),
+                              model=(got[k] if k < len(got) else None), op="amg." + c.coarsening, size=len(c.impl_line()), segment=k,
+                              theorem="correspondence amg(%s): implementation's hierarchy vs the hierarchy built entirely inside the model (AmgFull.amg_init_full), dump/rebuild step %d" % (c.coarsening, k)))
+    return fails
+
+def block_model(ctx):
+    vcheck.coq_build(ctx["log"], None, MODEL_BLOCK)
+    return vcheck.build_model(ctx["log"], MODEL_BLOCK)
 
 def run(ctx, cases_override=None):
     bfails = run_block(ctx, cases_override)
@@ -135,6 +196,12 @@ def run(ctx, cases_override=None):
         cases = [c for c in cases if c.cid in ids] or cases
     fails, impl, model, levels = ac.run_cases(ctx, cases)
     fails = bfails + fails
+    try:
+        fails += run_full(ctx, cases, impl, block_model(ctx))
+    except Exception as e:
+        import traceback
+        fails.append(dict(kind="broken-model-build", case=None, has_input=False, impl=None, model=None, op="amgfull", size=0,
+                          theorem="amgfull stage failed: " + traceback.format_exc()[-1500:]))
     # implementation-side oracles on every dump (independent of the model)
     for c in cases:
         o = impl.get(c.cid)
